@@ -8,11 +8,41 @@
 // destructed is reported as unknown
 #define ROID(ob) (this_object () ? OID (ob) : "?")
 
+// objects(filter): the driver walks obj_list and calls this function in the executing object for every object; the
+// n-th call runs the n-th `ofilt` script of the executing object (it may destruct / move / create objects meanwhile)
+int ofilt (object o) {
+  VL ("hb " + my_oid () + " ofilt " + OID (o));
+  c08_run ("ofilt", 0);
+  VL ("he " + my_oid () + " ofilt");
+  return 1;
+}
+
+string c08_list (mixed *a) {
+  string r = "";
+  int i;
+  if (!arrayp (a)) return "!0";
+  for (i = 0; i < sizeof (a); i++) r += (i ? "," : "") + (objectp (a[i]) ? OID (a[i]) : "0");
+  return r == "" ? "-" : r;
+}
+
 mixed do_op (string s, mixed hookarg) {
   string *w = explode (s, ",");
   object a, d, ob;
   string t, p;
+  mixed e;
   switch (w[0]) {
+  case "obf":
+    // objects() before, objects("ofilt") with the callbacks, objects() after (ids >= 2, sorted)
+    VL ("obfb " + my_oid () + " " + master()->live_ids ());
+    e = objects ("ofilt");
+    VL ("r obf " + my_oid () + " " + (this_object () ? c08_list (e) : "?") + " " + master()->live_ids ());
+    break;
+  case "ct":
+    // catch() around one op: a caught error must leave every guard as it was at the start of the catch
+    VL ("ctb " + my_oid ());
+    e = catch (do_op (implode (w[1..], ","), hookarg));
+    VL ("r ct " + my_oid () + " " + (e ? 1 : 0));
+    break;
   case "ld":
     p = "/c08/" + w[1];
     // typeof() sees the value the efun left on the stack (a local variable would already read as 0)
